@@ -159,19 +159,16 @@ impl<'a, O: Iterator<Item = Box<dyn Iterator<Item = DltMessage> + 'a>>> Iterator
 {
     type Item = DltMessage;
     fn next(&mut self) -> Option<Self::Item> {
-        if let Some(cur_it) = self.cur_it.as_mut() {
-            let m = cur_it.next();
-            if let Some(mut msg) = m {
+        // a loop, not a recursion: any number of empty iterators may follow each other
+        while let Some(cur_it) = self.cur_it.as_mut() {
+            if let Some(mut msg) = cur_it.next() {
                 msg.index = self.index;
                 self.index += 1;
-                Some(msg)
-            } else {
-                self.cur_it = self.its.next();
-                self.next()
+                return Some(msg);
             }
-        } else {
-            None
+            self.cur_it = self.its.next();
         }
+        None
     }
 }
 
